@@ -83,15 +83,15 @@ def check_cursors(rep, fs, prop, entry_of, prog=None):
     for f in fs:
         for lp, name, stores in loop_cursors(f):
             n += 1
-            top = [s for s in stores if s.stmt in lp.body]
-            ok = len(top) >= 1
-            # no `continue` before the top-level store
-            if ok:
-                idx = lp.body.index(top[-1].stmt)
-                for s in lp.body[:idx]:
-                    for x in ast.walk(s):
-                        if isinstance(x, ast.Continue):
-                            ok = False
+            # on every path through the loop body that goes on to the next item (fall through or `continue`) the
+            # cursor is advanced
+            from .astutil import body_paths
+            try:
+                paths = [p for p in body_paths(lp.body) if p.exit in ('fall', 'continue')]
+                stmts = {id(s.stmt) for s in stores}
+                ok = bool(paths) and all(any(id(x) in stmts for x in p.stmts) for p in paths)
+            except ValueError:
+                ok = None
             rep.add('Z1', f, entry_of(f), 'cursor `%s` in `for %s in %s`: %s' % (
                 name, norm(lp.target), norm(lp.iter)[:40], '; '.join(s.text() for s in stores)), stores[0].lineno, ok,
                 'a running offset that delimits consecutive segments must be advanced on EVERY iteration (at the top '
@@ -676,6 +676,7 @@ def check_strides(prog, rep, m, entry):
         whiles = [L for L in k.loops if L.kind == 'while']
         stores = [st for st in k.stores if outs and st.arr is outs[0] and st.loops]
         if len(fors) == 1 and len(whiles) == 1 and len(stores) == 1 and len(whiles[0].phi) == 1:
+            from .kutil import evaluate
             Lo, Lw, st = fors[0], whiles[0], stores[0]
             sortedv, ids = f.params[0], f.params[1]
             cname = next(iter(Lw.phi))
@@ -687,31 +688,85 @@ def check_strides(prog, rep, m, entry):
             start0 = Lo.pre.get(cname) == Rat.const(0)
             carried = Lw.pre.get(cname) == Lo.phi.get(cname) and cname in Lo.carried and \
                 '~wout' in repr(Lo.carried[cname][1]) and Lo.carried[cname][1] == st.value
-            step1 = cname in Lw.carried and Lw.carried[cname][1] == c + Rat.const(1)
             recorded = tuple(st.idx) == (i,) and not st.guards
-            # the run test: cursor inside the vector AND element equals the i-th id; the bounds test comes first
-            t = Lw.test
-            parts = list(t[1:]) if t[0] == 'and' else [t]
+            # one step of the run, evaluated: the cursor advances by one exactly while it is inside the vector AND the
+            # element under it equals the i-th id; otherwise the run ends (loop test false or a break) with the cursor
+            # unchanged.  The loop test and the breaks may be arranged in any way.
             elem = App('read', [sortedv, c])
             idat = App('read', [ids, i])
-            n_at = [a for a in guard_atoms([t]) if isinstance(a, App) and a.name in ('shape', 'len')]
+            ats = guard_atoms([Lw.test])
+            for g_, env_, nb_ in Lw.breaks:
+                ats |= guard_atoms(g_)
+            n_at = [a for a in ats if isinstance(a, App) and a.name in ('shape', 'len')]
+            n_at += [a for a in ats if isinstance(a, Sym) and a not in (C,) and a.name.split('~')[0] not in (Lo.var,) and '@' not in a.name]
             vals = []
             for cv, ev, iv in ((2, 7, 7), (2, 7, 8), (5, 7, 7), (6, 7, 7)):
-                env = {C: Fraction(cv), elem: Fraction(ev), idat: Fraction(iv)}
+                env = {C: Fraction(cv), idat: Fraction(iv), Sym(Lo.var): Fraction(1)}
+                if cv < 5:
+                    env[elem] = Fraction(ev)      # beyond the end there is no element: needing it is an error
                 for a in n_at:
                     env[a] = Fraction(5)
-                vals.append(eval_cond_full(t, env))
+                # values hoisted before the run (zone = ids[i]) are loop-invariant symbols of the while loop
+                for nm_, v_ in Lw.pre.items():
+                    if isinstance(v_, Rat) and v_ == Rat.atom(idat) and nm_ in Lw.phi:
+                        env[next(iter(Lw.phi[nm_].atoms()))] = Fraction(iv)
+                if not eval_cond_full(Lw.test, env):
+                    vals.append(False)
+                    continue
+                if any(all(eval_cond_full(x, env) for x in g_) for g_, env_, nb_ in Lw.breaks):
+                    vals.append(False)
+                    continue
+                vals.append(evaluate(Lw.carried[cname][1], env) == cv + 1)
             test_ok = vals == [True, False, False, False]
-            first_bound = len(parts) == 2 and elem not in guard_atoms(parts[:1])
+            # no path of an iteration changes the cursor without advancing it by one
+            step1 = cname in Lw.carried and all(x == c or x == c + Rat.const(1) for x in _ite_leaf_values(Lw.carried[cname][1]))
+            # evaluation order (source order of the atomic tests of one step): the cursor is compared with the length
+            # before the element under it is read
+            seq = []
+
+            def atoms_in_order(e):
+                if isinstance(e, ast.BoolOp):
+                    for v_ in e.values:
+                        atoms_in_order(v_)
+                elif isinstance(e, ast.UnaryOp) and isinstance(e.op, ast.Not):
+                    atoms_in_order(e.operand)
+                else:
+                    seq.append(e)
+            atoms_in_order(Lw.node.test)
+            for s_ in Lw.node.body:
+                if isinstance(s_, ast.If):
+                    atoms_in_order(s_.test)
+                elif isinstance(s_, (ast.AugAssign, ast.Assign)) and any(isinstance(x, ast.Name) and x.id == cname and isinstance(x.ctx, ast.Store)
+                                                                          for x in ast.walk(s_)):
+                    break
+
+            def reads_elem(e):
+                return any(isinstance(x, ast.Subscript) and isinstance(x.value, ast.Name) and x.value.id == sortedv and
+                           any(isinstance(y, ast.Name) and y.id == cname for y in ast.walk(x.slice)) for x in ast.walk(e))
+            ei = [n_ for n_, e in enumerate(seq) if reads_elem(e)]
+            bi = [n_ for n_, e in enumerate(seq) if not reads_elem(e) and any(isinstance(y, ast.Name) and y.id == cname for y in ast.walk(e))]
+            first_bound = bool(ei) and bool(bi) and min(bi) < min(ei)
             ok = full and start0 and carried and step1 and recorded and test_ok and first_bound
             why = 'all ids: %s, cursor starts at 0: %s, carried across ids and recorded after the run: %s, advances by 1: %s, ' \
-                  'stored for every id: %s, run test (inside and equal): %s, bounds test first: %s' % (
-                      full, start0, carried, step1, recorded, vals, first_bound)
+                  'stored for every id: %s, run continues (inside and equal / different id / at the end / beyond the end): %s, ' \
+                  'length test before the element read: %s' % (full, start0, carried, step1, recorded, vals, first_bound)
     except (AnalysisIncomplete, CannotEvaluate) as e:
         ok, why = None, str(e)
     rep.add('ZS', f, entry, '_strides loop skeleton', f.node.lineno, ok,
             'the stride routine must advance one monotone cursor while the sorted vector equals the i-th id (bounds '
             'test first) and record the cursor once per id: ' + why)
+
+
+def _ite_leaf_values(r):
+    from .sym import App, Rat
+    a = None
+    if isinstance(r, Rat) and r.d.is_const() and len(r.n.t) == 1:
+        (mm, cc), = r.n.t.items()
+        if len(mm) == 1 and mm[0][1] == 1 and cc == r.d.const_value():
+            a = mm[0][0]
+    if isinstance(a, App) and a.name == 'ite':
+        return _ite_leaf_values(a.args[1]) + _ite_leaf_values(a.args[2])
+    return [r]
 
 
 # ------------------------------------------------------------------------------------------- ZT default table
@@ -1114,6 +1169,8 @@ def check_crosstab_keys(prog, rep, m, entry):
                 v = c.args[0] if c.args else None
                 if isinstance(v, ast.Name) and v.id in env:
                     v = env[v.id]
+                if isinstance(v, ast.BinOp) and isinstance(v.left, ast.Name) and v.left.id in env:
+                    v = ast.BinOp(left=env[v.left.id], op=v.op, right=v.right)      # `end = breaks[j]` named first
                 okc = isinstance(v, ast.BinOp) and isinstance(v.op, ast.Sub) and norm(v.left) in brk and isinstance(v.right, ast.Name)
                 n += 1
                 rep.add('X-key', f, entry, norm(c), c.lineno, okk and okc,
@@ -1124,7 +1181,26 @@ def check_crosstab_keys(prog, rep, m, entry):
         for lp in [x for x in g.node.body if isinstance(x, ast.For)]:
             ok = isinstance(lp.iter, ast.Call) and norm(lp.iter.func) == 'enumerate' and \
                 norm(lp.iter.args[0]) == 'unique_cats' and isinstance(lp.target, ast.Tuple)
-            sel = any(isinstance(x, ast.If) and norm(x.test) == '%s in cat_ids' % norm(lp.target.elts[1]) for x in lp.body) if ok else False
+            sel = False
+            if ok:
+                # every path that stores a result has passed the membership test of this category in cat_ids
+                from .astutil import body_paths
+                catv = norm(lp.target.elts[1])
+
+                def member(t_, taken):
+                    if isinstance(t_, ast.UnaryOp) and isinstance(t_.op, ast.Not):
+                        return member(t_.operand, not taken)
+                    if isinstance(t_, ast.Compare) and len(t_.ops) == 1 and norm(t_.left) == catv and norm(t_.comparators[0]) == 'cat_ids':
+                        if isinstance(t_.ops[0], ast.In):
+                            return taken
+                        if isinstance(t_.ops[0], ast.NotIn):
+                            return not taken
+                    return None
+                try:
+                    ps = [p for p in body_paths(lp.body) if any(isinstance(x, ast.Call) and short(x) == 'append' for s_ in p.stmts for x in ast.walk(s_))]
+                    sel = bool(ps) and all(any(member(t_, tk) is True for t_, tk in p.conds) for p in ps)
+                except ValueError:
+                    sel = False
             n += 1
             rep.add('X-key', g, entry, 'for %s in %s' % (norm(lp.target), norm(lp.iter)), lp.lineno, ok and sel,
                     'layer j of the 3-D values belongs to unique_cats[j]: the layer index must come from enumerating '
